@@ -12,7 +12,6 @@ INST = [
     ("c26_conc_est_d1", 2, 1, "false", 0b1100, 0b0100, ("quick", "thorough"), 900),
     ("c26_conc_3ops_d1", 3, 1, "false", 0b0111, 0b0111, ("thorough",), 3000),
     ("c26_conc_4ops_d1", 4, 1, "false", 0b0111, 0b0111, ("thorough",), 3600),
-    ("c26_conc_2ops_d2", 2, 2, "false", 0b0111, 0b0101, ("thorough",), 3600),
 ]
 
 
@@ -56,5 +55,5 @@ def spec(tier, seed):
     return PropSpec("C26", [u], native_replay=native_replay,
                     assumptions=["sequentially consistent atomics (the code uses Acquire/Release/AcqRel)", "context switches are properly nested (an interrupting thread runs complete operations); non-LIFO interleavings are outside the claim",
                                  "the clock is arbitrary but non-decreasing across all reads of all threads"],
-                    outside_claim=["non-LIFO interleavings", "memory orders weaker than SC", "more than the stated number of operations"],
+                    outside_claim=["nesting depth 2 (two interrupting threads stacked): the 2-operation query ran CBMC out of memory (14 GB) and was removed", "non-LIFO interleavings", "memory orders weaker than SC", "more than the stated number of operations"],
                     trusted_base=["kani-compiler 0.68 / CBMC 6.11 / cadical", "the atomic/clock stubs in harness/c26/harness.rs"])
